@@ -77,7 +77,7 @@ claim("C05", "TLC trace validation of rho/weights against the exported interpola
       "integer/BigInt arithmetic on table rows read with numpy directly from thakkar_interp.npz; MC_Promolecule model-checks order/motion invariance, additivity, "
       "positivity and the weight identities over small tables and all atom orders x 24 cube rotations. Real PromoleculeDensity/StockholderWeight objects (element sweeps "
       "over distances spanning the table, molecules of 1-40 atoms, poses from integer quaternions on a float32-exact grid) are evaluated and every point is checked by "
-      "TLC: atom value inside the interpolation interval, set = sum of atoms, positivity, permutation/motion invariance, weight definition, range and complementarity.",
+      "TLC: atom value inside the interpolation interval, set = sum of atoms, positivity, permutation/motion invariance, weight definition, range and complementarity. Also: calls in chunks and on reused buffers, objects kept and moved in place, atoms arriving through .xyz files (label spellings, blank titles, further per-atom columns), a 1101-atom system, the empty atom set, and the density table and reference interpolator themselves (Trace_Lerp).",
       "float32 kernel: relative slack 2e-5 plus an interval for the 1/4096 quantisation of t; points >= 0.35 A from nuclei; compiled kernel used as found.")
 claim("C20", "TLC model checking of the Sobol state machine on the exported direction-number table + trace validation of every generator route",
       "QuasiRandom.tla builds the direction numbers by the Joe-Kuo recurrence in exact integers and runs the Gray-code generator as a state machine; MC_QuasiRandom "
@@ -103,7 +103,7 @@ claim("C14", "TLC model checking of the memo/mutation state machine + TLC-enumer
       "exhibits the shortest stale history of the design found at the pinned commit. TLC then prints every history up to length 2 over all 14 queries and length 3 over the "
       "8-query core (thorough: 3 / 4); each is replayed on real objects of three structures (built in memory, loaded from CIF, loaded from SHELX) plus random histories "
       "of length 5-12, and Trace_CrystalObject validates every event: the answer equals the answer of a freshly constructed crystal with the same cell, space group and "
-      "asymmetric unit, every answer to the same (query, state) is the same (register), queries leave the state untouched, a switch produces exactly the state the spec computes. Requests the object must refuse (misspelt choices; a switch asked of P1 / P3_1) are events of their own (SpecRefused: state unchanged); symmetry_unique_dimers is in the alphabet; ask - change - ask again is replayed for every query.",
+      "asymmetric unit, every answer to the same (query, state) is the same (register), queries leave the state untouched, a switch produces exactly the state the spec computes. Requests the object must refuse (misspelt choices; a switch asked of P1 / P3_1) are events of their own (SpecRefused: state unchanged); symmetry_unique_dimers is in the alphabet; ask - change - ask again is replayed for every query. normalize_hydrogen_bondlengths - the second in-place state change named in the anchors - is an operation of the model (Normalize) and of the replayed histories: what may move is checked (NormalizeClause), the state after it is known by the signature of its exact floats (an opaque state), and answers of off-grid states are digested 2^14 times finer.",
       "Answers are compared as digests of canonical projections; exported texts are compared through the structure they load back to; the only state-changing "
       "operation offered by the API in scope is choose_trigonal_lattice.")
 
@@ -148,7 +148,7 @@ claim("C12", "TLC trace validation of every UnitCell construction route in exact
       "formulas = reciprocal metric, the identities behind the lower-triangular direct/inverse matrices, BigInt = plain arithmetic) over all lattices with entries -2..2 up "
       "to symmetry (334k states quick, 4.8M thorough) and prints lattices for replay. Real cells (random, near-degenerate 8..170 degrees, six crystal families, TLC-emitted) go "
       "through UnitCell(vectors), from_lengths_and_angles, triclinic and all seven named constructors in radians and degrees; TLC checks Gram, mutual inverses, aliases, "
-      "reciprocal metric, lengths, angles, volume = determinant, star quantities, to_cartesian, the fractional round trip and route-vs-route agreement. Routes include unit keywords made at run time, cells re-specified after a near twin (7th digit) and a near twin built earlier in the process.",
+      "reciprocal metric, lengths, angles, volume = determinant, star quantities, to_cartesian, the fractional round trip and route-vs-route agreement. Routes include unit keywords made at run time, cells re-specified after a near twin (7th digit) and a near twin built earlier in the process. Beyond the listed statement (EXTENSION-NOTE only): Trace_Reflections holds reflections() / unique_reflections on integer reciprocal lattices against Reflections.tla.",
       "Floats shipped as round(x 2^44) BigInts; slack 2^-30 x (abc/V)^2 computed exactly from G (measured noise <= 3e-15 x (abc/V)^2); guards: lengths 1..100, angles 8..170 degrees.")
 claim("C18", "TLC trace validation with an exact optimality certificate and a rational rotation net + model checking of the post-SVD steps",
       "Kabsch.tla states orthogonality, determinant +1, exact superposition, the first/second-order optimality certificate (R^T H symmetric, tr(M) I - M positive semidefinite "
@@ -156,7 +156,7 @@ claim("C18", "TLC trace validation with an exact optimality certificate and a ra
       "the certificate implies optimality in the net and that the code's post-SVD steps on integer SVDs always give a certified proper rotation (69k states; as-built deviation "
       "without determinant correction named). Real kabsch_rotation_matrix / reorient_points / rmsd_points / Dimer(transform_ab='calculate') run on integer point sets (generic, "
       "planar, collinear; rotated, mirrored, noisy; 3..50 points; TLC-emitted degenerate covariances); TLC checks Orthogonal, Det1, Superposes, both certificate clauses, "
-      "NoBetterInNet (|q|^2 <= 30, ~2200 rotations), Reorient and Rmsd on outputs quantised to 2^-20. Inputs are also given in other length units (exact powers of two down to 2^-34), reorientation is requested in other spellings (honoured or refused), and dimers are built from two molecules of one asymmetric unit.",
+      "NoBetterInNet (|q|^2 <= 30, ~2200 rotations), Reorient and Rmsd on outputs quantised to 2^-20. Inputs are also given in other length units (exact powers of two down to 2^-34), reorientation is requested in other spellings (honoured or refused), and dimers are built from two molecules of one asymmetric unit. Beyond the listed statement (EXTENSION-NOTE only): MC_MoleculeObject and Trace_MoleculeObject hold Molecule objects under translate/rotate/transform, their copying forms, mask and deepcopy against MoleculeObject.tla.",
       "Optimality over SO(3) is decided by the exact certificate on the quantised output plus the finite net, with slack tau = 2^-13 (|A|^2+|B|^2)/2; the SVD itself is not modelled.")
 
 claim("C06", "TLC trace validation of real meshes (static clauses + cell-by-cell sweep replay) + model checking of the sweep invariant",
